@@ -113,6 +113,10 @@ class ModelRegistry:
                         parent_model=parent_model,
                         replace_kwargs={'parent': meta, 'index': i}
                     )
+                # Nested types could have been replaced with model pointers (at any depth)
+                # so the hash string cached before is not valid anymore
+                if getattr(meta, '_hash', None):
+                    meta._hash = None
 
         if model_name is not None:
             ptr.type.set_raw_name(model_name)
